@@ -9,10 +9,17 @@ package main
 //	pemblock  (type bytes oracle)                       -> parsePEMBlock result
 //	pemf      (text oracles blocks)                     -> PEMFile outcome
 //	insp      (path data rows oracles blocks ref scope) -> Inspect outcome
+//	insplim   (path data rows oracles blocks ref scope limit) -> Inspect outcome with file.MaxReadSize = limit
+//	pemdec    (text)                                    -> the blocks PEMFile's loop over pem.Decode meets
 //	cli       (path data info)                          -> (stdout-file code stdout-dash code stdout-noargs code)
 //
 // "oracle" = for one byte string handed to the DER parsers: the result of each of the
-// nine individual parsers and of the generic dump, as the real code computes them.
+// nine individual parsers, and of the generic dump where parseDERData knows no type, as
+// the real code computes them.
+//
+// The objects: c05Objects (one of every variant of the seven types, c05MoreKinds in
+// c05_sized.go) and c05SizedObjects (every kind at exact encoded lengths around every
+// buffer size, c05_sized.go).
 
 import (
 	"bytes"
@@ -44,9 +51,10 @@ import (
 func init() { gens["C05"] = genC05 }
 
 type c05Obj struct {
-	kind string // cert pkcs8 pkix pkcs1pub sec1 pkcs1priv dsapriv
-	tag  string
-	der  []byte
+	kind  string // cert pkcs8 pkix pkcs1pub sec1 pkcs1priv dsapriv
+	tag   string
+	der   []byte
+	extra bool // one of the further variants of c05MoreKinds (fewer mutants in the quick tier)
 }
 
 var c05Kinds = []string{"cert", "pkcs8", "pkix", "pkcs1pub", "sec1", "pkcs1priv", "dsapriv"}
@@ -73,6 +81,22 @@ func obsInfo(i file.Info, err error) Sx {
 	return ObsOk(InfoSx(i))
 }
 
+// c05OracleCache: the oracle entry of a byte string, kept while the presentations of one object
+// are generated (they all hand the same DER to the parsers)
+var c05OracleCache = map[string]Sx{}
+
+func derOracleCached(x []byte) Sx {
+	if o, ok := c05OracleCache[string(x)]; ok {
+		return o
+	}
+	o := derOracle(x)
+	if len(c05OracleCache) > 64 {
+		c05OracleCache = map[string]Sx{}
+	}
+	c05OracleCache[string(x)] = o
+	return o
+}
+
 // derOracle: (bytes (r0 .. r8) generic)
 func derOracle(x []byte) Sx {
 	rs := SL{}
@@ -80,7 +104,14 @@ func derOracle(x []byte) Sx {
 		i := i
 		rs = append(rs, guard(func() Sx { return obsInfo(file.VerifRunDERParser(i, x)) }))
 	}
-	return SL{SB(x), rs, guard(func() Sx { return ObsOk(InfoSx(file.VerifParseASN1Data(x))) })}
+	// the generic dump is what ASN1File falls back to when parseDERData knows no type for x: recorded
+	// in that case only (it repeats every byte of x; a model that wants it where the implementation
+	// found a type gets none and the two observations differ, as they should)
+	var generic Sx = SL{}
+	if unknown := guard(func() Sx { return Bool(file.VerifParseDERData(x).Description == file.UnknownASN1Data.Description) }); unknown.String() != Bool(false).String() {
+		generic = guard(func() Sx { return ObsOk(InfoSx(file.VerifParseASN1Data(x))) })
+	}
+	return SL{SB(x), rs, generic}
 }
 
 func isBinASN1(x []byte) bool { return file.IsASN1("", x, int64(len(x))) }
@@ -109,7 +140,7 @@ func oraclesFor(data []byte) (SL, SL) {
 			return
 		}
 		seen[string(x)] = true
-		os_ = append(os_, derOracle(x))
+		os_ = append(os_, derOracleCached(x))
 	}
 	if isBinASN1(data) {
 		add(data)
@@ -288,10 +319,26 @@ func c05InspectFile(p string) (Sx, file.Info) {
 // c05Insp: full inspection of one file; ref is the implementation's description of the
 // same object presented as raw DER under a neutral name (nil when there is no object).
 func c05Insp(c *Ctx, tag, name string, data []byte, ref Sx, inScope bool) file.Info {
+	return c05InspLim(c, tag, name, data, ref, inScope, -1)
+}
+
+// c05InspLim: the same with file.MaxReadSize lowered to limit (op insplim; limit < 0: op insp, the
+// limit of 128 MB left alone). Inspect hands its sniffers and parsers what it has read: the
+// oracles are recorded for that part of the file. A file longer than the limit is outside the property.
+func c05InspLim(c *Ctx, tag, name string, data []byte, ref Sx, inScope bool, limit int) file.Info {
 	p := c05WriteFile(c, name, data)
 	defer c05RemoveFile(c, p)
+	seen := data
+	if limit >= 0 {
+		defer func(old int64) { file.MaxReadSize = old }(file.MaxReadSize)
+		file.MaxReadSize = int64(limit)
+		if len(data) > limit {
+			seen = data[:limit]
+			inScope = false
+		}
+	}
 	rows := file.VerifFiletypes()
-	preds := file.VerifRowPredicates(p, data, int64(len(data)))
+	preds := file.VerifRowPredicates(p, seen, int64(len(data)))
 	rowsO := SL{}
 	for i, r := range rows {
 		i := i
@@ -302,19 +349,42 @@ func c05Insp(c *Ctx, tag, name string, data []byte, ref Sx, inScope bool) file.I
 		var res Sx = SL{}
 		if !c05Modelled[r.Parser] {
 			res = guard(func() Sx {
-				return obsInfo(file.VerifRunRowParser(i, file.Info{Path: p, Size: int64(len(data))}, data))
+				return obsInfo(file.VerifRunRowParser(i, file.Info{Path: p, Size: int64(len(data))}, seen))
 			})
 		}
 		rowsO = append(rowsO, SL{sn, res})
 	}
-	os_, blocks := oraclesFor(data)
+	os_, blocks := oraclesFor(seen)
 	obs, info := c05InspectFile(p)
 	if ref == nil {
 		ref = SL{}
 	}
 	// the case names the file relative to the scratch directory, so that it replays in another one
-	c.Emit("insp:"+tag, SL{S(c05Rel(c, p)), SB(data), rowsO, os_, blocks, ref, Bool(inScope)}, obs)
+	in := SL{S(c05Rel(c, p)), SB(data), rowsO, os_, blocks, ref, Bool(inScope)}
+	if limit >= 0 {
+		c.Emit("insplim:"+tag, append(in, I(limit)), obs)
+	} else {
+		c.Emit("insp:"+tag, in, obs)
+	}
 	return info
+}
+
+// c05ReadLimit: one object (raw DER, base64, PEM) around the read limit: one byte more than the
+// file, exactly the file, one byte less, and a head buffer's worth
+func c05ReadLimit(c *Ctx, o c05Obj, ref Sx) {
+	b64 := wrapText([]byte(base64.StdEncoding.EncodeToString(o.der)), 64, false)
+	for _, p := range []c05Pres{{"der", o.der, true}, {"b64-std-w64-lf", b64, true},
+		{"pem-lf-bare", pemText(c05Labels[o.kind], o.der, false, 64, "", ""), true}} {
+		for _, d := range []int{1, 0, -1} {
+			if d == 1 && !c.Thorough() {
+				continue
+			}
+			c05InspLim(c, o.kind+":"+p.tag+fmt.Sprintf(":len%+d", d), "object.lim", p.data, ref, true, len(p.data)+d)
+		}
+		if len(p.data) > 8192 {
+			c05InspLim(c, o.kind+":"+p.tag+":8192", "object.lim", p.data, ref, true, 8192)
+		}
+	}
 }
 
 func c05Rel(c *Ctx, p string) string {
@@ -539,7 +609,8 @@ func genCert(r *Rng, pub any, variant int) []byte {
 func c05Objects(c *Ctx) []c05Obj {
 	r := c.R
 	var objs []c05Obj
-	add := func(kind, tag string, der []byte) { objs = append(objs, c05Obj{kind, tag, der}) }
+	extra := false
+	add := func(kind, tag string, der []byte) { objs = append(objs, c05Obj{kind, tag, der, extra}) }
 
 	// --- corpus: witnesses of past failures first ---
 	// 51-byte SEC1 P-256 key without public part: padded base64 wrapped at 64 with CRLF is itself one BER TLV
@@ -554,6 +625,11 @@ func c05Objects(c *Ctx) []c05Obj {
 	// PKCS#1 private key with a toy modulus below 2^63: {version, n, ...} also fits the PKCS#1 public
 	// schema {N *big.Int; E int} (N := version, E := n), which parseDERData used to try first
 	add("pkcs1priv", "toy-rsa62", c05_genRSA(r, 62).pkcs1Priv(0, r))
+
+	// C05-F3: a well-formed version 1 certificate whose subject key is on a curve crypto/x509 does not
+	// implement (secp256k1): a dump of its ASN.1 structure as DER and base64, but "unknown PEM data"
+	// in a CERTIFICATE block before the repair
+	add("cert", "x509-rejects-secp256k1", c05F3Witness())
 
 	// --- RSA ---
 	sizes := []int{256, 257, 300, 336, 344, 352, 384, 512, 768, 1024, 2048}
@@ -620,6 +696,10 @@ func c05Objects(c *Ctx) []c05Obj {
 		add("pkix", t, spki(oid.DSA, params, must(asn1.Marshal(k.Y))))
 		add("pkcs8", t, pkcs8(oid.DSA, params, must(asn1.Marshal(k.X))))
 	}
+	// --- every further well-formed variant of the seven types (c05_sized.go) ---
+	extra = true
+	c05MoreKinds(r, add)
+	extra = false
 	// --- the repository's own fixtures (produced by OpenSSL) ---
 	dir := filepath.Join(repoDir(), "internal/file/testdata/x509/der")
 	ents, _ := os.ReadDir(dir)
@@ -666,11 +746,25 @@ var c05Encs = []struct {
 	enc  *base64.Encoding
 }{{"rawstd", base64.RawStdEncoding}, {"rawurl", base64.RawURLEncoding}, {"std", base64.StdEncoding}, {"url", base64.URLEncoding}}
 
+// no wrap, the two customary widths, one character per line, odd widths (not a multiple of 4,
+// one less / one more than a customary width, longer than any customary line)
+var c05Widths = []int{0, 64, 76, 1, 5, 63, 65, 1021}
+
+// c05OddWidth: a base64 presentation wrapped at one of the odd widths (sampled in the quick tier)
+func c05OddWidth(tag string) bool {
+	for _, w := range []string{"-w5-", "-w63-", "-w65-", "-w1021-"} {
+		if strings.Contains(tag, w) {
+			return true
+		}
+	}
+	return false
+}
+
 func b64Presentations(der []byte) []c05Pres {
 	var out []c05Pres
 	for _, e := range c05Encs {
 		txt := []byte(e.enc.EncodeToString(der))
-		for _, w := range []int{0, 64, 76, 1} {
+		for _, w := range c05Widths {
 			for _, crlf := range []bool{false, true} {
 				if w == 0 && crlf {
 					continue
@@ -943,6 +1037,10 @@ func handBuiltDER() []c05Pres {
 func genC05(c *Ctx) {
 	defer os.RemoveAll(filepath.Join(c.Tmp, "c05"))
 	r := c.R
+	if os.Getenv("VERIF_C05_ONLY") == "sized" { // development aid: the size sweep alone
+		c05SizedCases(c, c05SizedObjects(c))
+		return
+	}
 	objs := c05Objects(c)
 
 	// 1. each object: DER route, every presentation through Inspect, checked against the DER description
@@ -962,7 +1060,10 @@ func genC05(c *Ctx) {
 		small := len(o.der) <= 128
 		for pi, p := range pres {
 			// quick tier: the whole matrix for small objects (where text can double as BER), a sample otherwise
-			if !c.Thorough() && !small && !strings.HasPrefix(p.tag, "pem-") && (pi+oi)%7 != 0 {
+			if !c.Thorough() && (!small || c05OddWidth(p.tag)) && !strings.HasPrefix(p.tag, "pem-") && (pi+oi)%7 != 0 {
+				continue
+			}
+			if !c.Thorough() && small && o.extra && !strings.HasPrefix(p.tag, "pem-") && (pi+oi)%3 != 0 {
 				continue
 			}
 			if !c.Thorough() && len(o.der) > 700 && (pi+oi)%3 != 0 {
@@ -977,7 +1078,10 @@ func genC05(c *Ctx) {
 				c05Sniff(c, "pres", p.data)
 			}
 			if strings.HasPrefix(p.tag, "pem-") {
-				c05PemDec(c, "pres", p.data)
+				// (every insp case already runs the model of pem.Decode; this op compares it block by block)
+				if (pi+oi)%2 == 1 || small || c.Thorough() {
+					c05PemDec(c, "pres", p.data)
+				}
 				if (pi+oi)%2 == 0 || c.Thorough() {
 					m, mt := mutatePEM(r, p.data)
 					c05PemDec(c, "mut-"+mt, m)
@@ -986,6 +1090,10 @@ func genC05(c *Ctx) {
 					}
 				}
 			}
+		}
+		// the read limit lowered to the size of the file and around it
+		if oi%10 == 1 || c.Thorough() {
+			c05ReadLimit(c, o, refObs)
 		}
 		// CLI: file argument vs standard input, for the DER and one other presentation
 		if oi%3 == 0 || c.Thorough() {
@@ -1010,6 +1118,9 @@ func genC05(c *Ctx) {
 		}
 	}
 
+	// 1b. objects of an exact encoded length, in the presentations of 1. and in those that are about size
+	c05SizedCases(c, c05SizedObjects(c))
+
 	// 2. hand-built near misses and the malformed stream (correspondence of the schema matcher and the routes)
 	for _, h := range handBuiltDER() {
 		c05Der(c, "hand-"+h.tag, h.data)
@@ -1023,6 +1134,9 @@ func genC05(c *Ctx) {
 	}
 	for _, o := range objs {
 		for k := 0; k < nm; k++ {
+			if o.extra && !c.Thorough() && k >= 8 {
+				break
+			}
 			d, tag := mutateDER(r, o.der)
 			if k%5 == 4 {
 				d, _ = mutateDER(r, d)
@@ -1097,6 +1211,88 @@ func genC05(c *Ctx) {
 		}
 		c05Sniff(c, "tlv-text", s)
 	}
+}
+
+// c05SizedCases: per object the raw DER (neutral and random name, CLI with file / pipe), the bare PEM
+// block and base64 on one line always; of the other presentations a sample that rotates from object
+// to object (quick: 3; thorough: 32 up to 8193 bytes, 12 up to 65537, 8 at 128 KiB, 4 at 1 MiB), so that a run covers
+// every presentation at some size (thorough: at every size, over the seven kinds)
+func c05SizedCases(c *Ctx, objs []c05Obj) {
+	r := c.R
+	pc := int(c.Seed % 997)
+	for oi, o := range objs {
+		c05OracleCache = map[string]Sx{}
+		kind := "sz-" + o.kind
+		c05Der(c, kind, o.der)
+		c05Sniff(c, "sz-der", o.der)
+		refPath := c05WriteFile(c, "object.der", o.der)
+		refObs, _ := c05InspectFile(refPath)
+		c05RemoveFile(c, refPath)
+		c05Insp(c, kind+":der", "object.bin", o.der, refObs, true)
+		if len(o.der) <= 131072 {
+			c05Insp(c, kind+":der-name", c05_randName(r), o.der, refObs, true)
+		}
+		c05PemBlock(c, "sz-label", c05Labels[o.kind], o.der)
+		pres := append(b64Presentations(o.der), pemPresentations(r, c05Labels[o.kind], o.der)...)
+		pres = append(pres, sizePresentations(c05Labels[o.kind], o.der, c.Thorough())...)
+		if len(o.der) > 4096 {
+			// the presentations outside the property put the whole body on one line: the model of
+			// encoding/pem's getLine reverses a line to trim it (Coq's quadratic rev); leave them
+			// to the ordinary objects
+			var in []c05Pres
+			for _, p := range pres {
+				if p.inScope {
+					in = append(in, p)
+				}
+			}
+			pres = in
+		}
+		take := map[int]bool{}
+		for pi, p := range pres { // always: base64 on one line, the bare block
+			if p.tag == "b64-std-w0-lf" || p.tag == "pem-lf-bare" {
+				take[pi] = true
+			}
+		}
+		n := 3
+		switch {
+		case c.Thorough() && len(o.der) <= 8193: // the seven kinds together cover every presentation at every size
+			n = 32
+		case c.Thorough() && len(o.der) <= 65537:
+			n = 12
+		case c.Thorough() && len(o.der) <= 131072:
+			n = 8
+		case c.Thorough():
+			n = 4
+		}
+		for j := 0; j < n; j++ {
+			take[(pc+j*37)%len(pres)] = true
+		}
+		pc += n * 37
+		for pi, p := range pres {
+			if !take[pi] {
+				continue
+			}
+			name := "object.txt"
+			if (pi+oi)%3 == 0 {
+				name = c05_randName(r)
+			}
+			c05Insp(c, kind+":"+p.tag, name, p.data, refObs, p.inScope)
+			if (pi+oi)%4 == 0 {
+				c05Sniff(c, "sz-pres", p.data)
+			}
+			if strings.HasPrefix(p.tag, "pem-") {
+				c05PemDec(c, "sz-pres", p.data)
+			}
+			if (pi+oi)%5 == 0 {
+				c05CLI(c, "sz-pres", c05_randName(r), p.data)
+			}
+		}
+		c05CLI(c, "sz-der", c05_randName(r), o.der)
+		if (!c.Thorough() && oi%3 == 0) || (c.Thorough() && len(o.der) <= 65537) {
+			c05ReadLimit(c, o, refObs)
+		}
+	}
+	c05OracleCache = map[string]Sx{}
 }
 
 // uuidForms: every accepted spelling of a UUID, with the white space TrimSpace removes, and near misses
